@@ -35,8 +35,11 @@ from collections import Counter
 
 from . import env, known
 
-EVIDENCE_DIR = os.path.join(env.VERIF_ROOT, 'evidence')
-REPLAY_DIR = os.path.join(env.VERIF_ROOT, 'replays')
+# MC_OUT_DIR: where evidence and replays go. Only the mutant runner sets it (to a scratch directory), so that runs against a
+# deliberately broken scratch tree never touch /verif/evidence, which must keep describing /repo.
+_OUT = os.environ.get('MC_OUT_DIR') or env.VERIF_ROOT
+EVIDENCE_DIR = os.path.join(_OUT, 'evidence')
+REPLAY_DIR = os.path.join(_OUT, 'replays')
 NPROC = int(os.environ.get('MC_NPROC', '16'))
 CASE_HORIZON_S = int(os.environ.get('MC_CASE_HORIZON', '900'))
 GUARD_OFF = {'C08', 'C09'}       # these run with the hook guard off (DESIGN 2.5)
@@ -93,7 +96,7 @@ def write_replay(prop_id, case, violation) -> str:
     with open(path, 'w') as f:
         json.dump(body, f, indent=1, default=str)
     # the same artefact as a plain unit test that replays it without the explorer
-    with open(path[:-5].replace('.', '_').replace('-', '_') + '_test.py', 'w') as f:
+    with open(os.path.join(d, os.path.basename(path)[:-5].replace('.', '_').replace('-', '_') + '_test.py'), 'w') as f:
         f.write('"""Replays one recorded violation of %s (%s) on the current /repo tree; fails while it still reproduces."""\n'
                 'import subprocess\n\n\ndef test_replay():\n'
                 '    r = subprocess.run([%r, "replay", %r], capture_output=True, text=True)\n'
